@@ -51,6 +51,21 @@ def run(prog: Program, chk: Check):
                         "the descriptor protocol routes every attribute assignment on a message field through __set__"]
     m = prog.module(VAL)
     base = prog.cls(VAL, "FieldValidator")
+    # the validation switch itself: a context variable (its own value per thread and per asyncio task, a default for contexts
+    # that never set it).  A thread-local or a plain global gives other contexts a missing / shared value: validation is then
+    # off (or on) where no disable block is active.
+    T0 = chk.rule("C09-T", "the validation switch of pyrtma.validators is a contextvars.ContextVar", 1,
+                  "thread-local or global state is not what `with disable_message_validation():` scopes: another thread / task sees validation off, or none at all")
+    flag_def = m.assigns.get(FLAG)
+    is_cv = isinstance(flag_def, ast.Call) and norm(flag_def.func).split(".")[-1] == "ContextVar"
+    if not is_cv:
+        others = [k_ for k_, v_ in m.assigns.items() if isinstance(v_, ast.Call) and norm(v_.func).split(".")[-1] == "ContextVar"]
+        T0.bad(f"{VAL}|switch-is-contextvar", m.rel, f"pyrtma.validators has no ContextVar `{FLAG}`" + (f" (context variables present: {others})" if others else
+               ": the switch consulted by the setters is not a context variable (" + ", ".join(sorted({norm(v_.func) for v_ in m.assigns.values() if isinstance(v_, ast.Call) and 'local' in norm(v_.func)}) or ["none found"]) + ")"))
+        if not others:
+            return  # every other rule is stated in terms of the context variable
+    else:
+        T0.ok(f"{VAL}|switch-is-contextvar", m.rel, f"{FLAG} = ContextVar(...)")
 
     # ---- E enumeration ------------------------------------------------------------------------------
     E = chk.rule("C09-E", "every concrete FieldValidator subclass has non-abstract __set__, validate_one, validate_many (+ __setitem__ for sequences)", 19,
@@ -405,6 +420,31 @@ def run(prog: Program, chk: Check):
         D.decide(not bad and bool(paths), fkey(fi, "domain-at-exit"), where(fi), "every way of returning normally establishes the domain predicate",
                  f"{cname}.validate_one can return normally for a value outside the domain; facts on that path: "
                  + (", ".join(("" if pol else "not ") + norm(x) for x, pol in paths[bad[0]]) if bad else "no normal exit"))
+
+    # ---- I a struct-array element is validated as an element ----------------------------------------------------------------
+    # ctypes builds a Structure from a tuple of initialisers, so `arr[i] = ()` stores an all-zero element unless the element
+    # validator (isinstance of the struct class) sees the value.  The setter must therefore choose the validator by the KEY: an
+    # index -> validate_one, a slice -> validate_many.  Choosing by the shape of the value sends `()` to validate_many, which an
+    # empty sequence passes vacuously (for int / float / byte arrays ctypes itself refuses a sequence as an element, so only
+    # the struct array is affected).
+    Ix = chk.rule("C09-I", "StructArray.__setitem__ validates an indexed element with the element validator (validate_many only for a slice key)", 1,
+                  "an empty tuple assigned to one element passes the sequence validator vacuously and ctypes stores a zeroed struct: a wrong-type value is accepted")
+    sa_ci = m.classes.get("StructArray")
+    sa_set = sa_ci.methods.get("__setitem__") if sa_ci is not None else None
+    if sa_set is None:
+        raise AnalysisError("anchor vanished: StructArray.__setitem__")
+    kparam, vparam_ = [p_ for p_ in sa_set.params() if p_ != "self"][:2]
+    ge_ = C.build(sa_set.node)
+    gse_ = flow.guard_states(ge_)
+    many_nodes = [n_ for n_ in ge_.nodes for c_ in node_calls(n_) if is_method_call(c_, "validate_many") and c_.args and path_of(c_.args[0]) == vparam_]
+    one_nodes = [n_ for n_ in ge_.nodes for c_ in node_calls(n_) if is_method_call(c_, "validate_one") and c_.args and path_of(c_.args[0]) == vparam_]
+    if not many_nodes and not one_nodes:
+        raise AnalysisError("anchor vanished: validator calls in StructArray.__setitem__")
+    by_value = [n_ for n_ in many_nodes if guards.any_path_implies(gse_.at(n_), guards.parse(f"isinstance({kparam}, slice)"))]
+    Ix.decide(not by_value and bool(one_nodes), fkey(sa_set, "element-key-validated-as-element"), where(sa_set),
+              "validate_many runs only for a slice key; an index goes through validate_one",
+              f"StructArray.__setitem__ can send the value of an indexed assignment (`arr[i] = v`) to validate_many: chosen by the shape of the value, not by the key - "
+              f"`arr[i] = ()` passes vacuously and ctypes stores a zeroed struct (findings/c09_struct_element_tuple.py)")
 
     # ---- L a sequence is folded into one scalar only when it has exactly one element ---------------------------------
     # `int.from_bytes(value, ...)`, `value[0]`: ctypes would refuse a wrong-length sequence, the folded int it masks silently.
